@@ -258,24 +258,52 @@ def _can_fail(test, env):
 
 
 def _check_asserts(ck, R, fi, env, label):
+    """Every assert of the function, under the nullability bindings `env` of its parameters: can it be reached and
+    fail?  Decided per path class: the branch literals on the way to the assert (nesting, elif chains, guard clauses
+    alike) refine what is known about the parameters — `x is None` taken true makes x None on that path, a literal
+    that contradicts the bindings makes the path infeasible."""
     fa = FA(ck, fi)
     n = 0
     for st in fa.stmts(ast.Assert):
-        # reachability: an enclosing branch that is definitely not taken under env makes it moot
-        reachable = True
-        node = st
-        while node is not None:
-            p = fa.pm.get(node)
-            if isinstance(p, ast.If):
-                v = _ev(p.test, env)
-                in_body = any(node is s for s in p.body)
-                if (v is False and in_body) or (v is True and not in_body):
-                    reachable = False
-            node = p if not isinstance(p, (ast.FunctionDef,)) else None
-        if not reachable:
+        if not fa.nodes(st):
             continue
+        conds = fa.conditions(st)
+        if conds is None:
+            conds = {frozenset()}
+        verdict = None
+        for conj in sorted(conds, key=lambda c: sorted(c)):
+            env_c = dict(env)
+            feasible = True
+            for (text, pol) in sorted(conj):
+                try:
+                    t = ast.parse(text, mode="eval").body
+                except SyntaxError:
+                    continue
+                if isinstance(t, ast.Compare) and len(t.ops) == 1 and isinstance(t.ops[0], ast.Is) and A.is_none(t.comparators[0]) \
+                        and isinstance(t.left, ast.Name) and t.left.id in env_c:
+                    want = NONE if pol else NOTNONE
+                    have = env_c[t.left.id]
+                    if have == MAYBE:
+                        env_c[t.left.id] = want
+                    elif have != want:
+                        feasible = False
+                        break
+                    continue
+                v = _ev(t, env_c)
+                if v is not None and v != pol:
+                    feasible = False
+                    break
+            if not feasible:
+                continue
+            fails, how = _can_fail(st.test, env_c)
+            if verdict is None or fails:
+                verdict = (fails, how)
+            if fails:
+                break
+        if verdict is None:
+            continue  # not reachable under these bindings
         n += 1
-        fails, how = _can_fail(st.test, env)
+        fails, how = verdict
         ck.ob(R, fa.key(st, label), not fails, "assert cannot fail on the metadata read path" if not fails else
               "`%s` fails for a stored name with %s: reading stored metadata raises AssertionError instead of "
               "reporting an external reference" % (A.short(st.test, 70), how), fa.where(st))
@@ -998,12 +1026,34 @@ def check(ck):
         if isinstance(c.func, ast.Attribute) and A.norm(c.func.value) in ("FunctionReference", "cls", "self") and c.func.attr in frcls.methods \
                 and c.func.attr not in ("_find_function", "from_qualified_name"):
             lookup_fns.append(FA(ck, frcls.methods[c.func.attr]))
+    def raised_types(f, exc, depth=0):
+        """Names of the exception classes `raise <exc>` may raise: the class called / named on the spot, or what a
+        helper of this repository that builds the exception returns."""
+        if isinstance(exc, ast.Call):
+            try:
+                cands, how = ck.cg.resolve(exc, f.fi)
+            except Exception:  # noqa
+                cands, how = [], "unresolved"
+            if how in ("typed", "module", "nested") and len(cands) == 1 and depth < 3:
+                h = FA(ck, cands[0])
+                out = set()
+                for r_ in h.returns():
+                    if r_.value is not None:
+                        out |= raised_types(h, r_.value, depth + 1)
+                if out:
+                    return out
+            return {A.call_attr(exc)}
+        if isinstance(exc, (ast.Name, ast.Attribute)):
+            nm = A.norm(exc).split(".")[-1]
+            return {nm} if nm[:1].isupper() else set()
+        return set()
+
     for f in lookup_fns:
         for r in f.stmts(ast.Raise):
             if host_mode and f is ff and not in_region(r):
                 continue
-            if isinstance(r.exc, ast.Call):
-                may.add(A.call_attr(r.exc))
+            if r.exc is not None:
+                may |= raised_types(f, r.exc)
         for c in f.calls():
             nm = A.call_attr(c)
             if nm == "import_module":
